@@ -145,8 +145,8 @@ def convert(raw, sid):
     else:
         key = ("%s/p" % sc["pns"]) if sc["pns"] else "p"
     nsync = int(raw["syncs"]) + 2
-    if prog in ("echo", "echoraw"):
-        nsync += 2      # one more write re-records the last-applied annotation in the echoed form
+    if prog in ("echo", "echoraw") or withstatus:
+        nsync += 2      # one more write re-records the last-applied annotation in the echoed form (Recreate: a delete, then a create)
     sched = []
     for _ in range(nsync):
         sched += [{"s": "sync", "a": "A", "key": key}, {"s": "run", "a": "A"}, {"s": "deliver"}]
